@@ -81,7 +81,7 @@ HOME = {
     "ROUTE": ("C01", "C02", "C04", "C05", "C06", "C09", "C10"), "FLAGS": ("C05", "C09", "C20"),
     "SAMP-a": ("C14", "C04", "C09"), "SAMP-b": ("C14",), "SAMP-c": ("C14",), "SAMP-e": ("C04",), "SAMP-f": ("C09",),
     "NORM": ("C01", "C05", "C06", "C07", "C09"), "RENORM": ("C01", "C07", "C17"), "OUTER": ("C08",), "TAG": ("C06", "C07", "C08"),
-    "CONTRACT-ONLY": ("C08",), "SANDWICH": ("C01", "C05", "C06", "C09", "C12", "C15"), "KRAUS-SUM": ("C06",), "KRAUS-LEVEL": ("C06",),
+    "CONTRACT-ONLY": ("C08",), "CONTRACT-VEC": ("C08",), "SANDWICH": ("C01", "C05", "C06", "C09", "C12", "C15"), "KRAUS-SUM": ("C06",), "KRAUS-LEVEL": ("C06",),
     "POVM-LEVEL": ("C09",), "KRAUS-VALID": ("C06", "C17"), "VBC": ("C17", "C10"), "BOOK-order": ("C13",), "BOOK-evict": ("C05", "C13", "C20"),
     "BOOK-merge": ("C13",), "BOOK-own": ("C13",), "BOOK-absorb": ("C13", "C02"), "IDENT-contract": ("C18",), "IDENT-site": ("C18", "C17"),
     "BLOCK": ("C20", "C03", "C02"), "PURE-a": ("C15", "C03", "C17"), "PURE-b": ("C15", "C10", "C01", "C03", "C12", "C11"), "PURE-c": ("C15",),
